@@ -320,6 +320,80 @@ func concrete(m string, dataID string, pick int) []byte {
 	panic("unknown message class " + m)
 }
 
+// ---------------------------------------------------------------- structured mutations (C08)
+
+var reToken = regexp.MustCompile(`"[^"]*"|-?\d+|true|false|null|\[\]|\{\}`)
+
+var replacements = []string{`""`, `0`, `-1`, `1e999`, `4294967296`, `true`, `null`, `[]`, `[ ]`, `{}`, `"x"`, `[{}]`, `[[]]`, `"\u0000"`,
+	`"` + strings.Repeat("A", 5000) + `"`, strings.Repeat("[", 200) + strings.Repeat("]", 200), `{"a":{"a":{"a":1}}}`, `"datagram"`, `1.5`, `"\ud800"`}
+
+// mutate derives the k-th mutant of a valid message, deterministically from (k, seed)
+func mutate(m []byte, k, seed int) []byte {
+	h := k*7919 + seed*104729
+	if h < 0 {
+		h = -h
+	}
+	body := ""
+	if len(m) > 1 {
+		body = string(m[1:])
+	}
+	typ := byte(1)
+	if len(m) > 0 {
+		typ = m[0]
+	}
+	switch k % 8 {
+	case 0: // replace one JSON token
+		locs := reToken.FindAllStringIndex(body, -1)
+		if len(locs) == 0 {
+			return append([]byte{typ}, []byte(replacements[h%len(replacements)])...)
+		}
+		l := locs[(h/8)%len(locs)]
+		r := replacements[(h/64)%len(replacements)]
+		return append([]byte{typ}, []byte(body[:l[0]]+r+body[l[1]:])...)
+	case 1: // truncate
+		if len(m) == 0 {
+			return m
+		}
+		return append([]byte{}, m[:(h/8)%len(m)]...)
+	case 2: // other type byte
+		return append([]byte{byte(h / 8)}, []byte(body)...)
+	case 3: // duplicate a member / element
+		if i := strings.Index(body, "},{"); i >= 0 {
+			return append([]byte{typ}, []byte(body[:i+2]+body[i+2:]+body[i+2:])...)
+		}
+		return append([]byte{typ}, []byte(body+body)...)
+	case 4: // drop a member
+		if i := strings.Index(body, "},{"); i >= 0 {
+			j := strings.LastIndex(body, "}]")
+			if j > i {
+				return append([]byte{typ}, []byte(body[:i+1]+body[j+1:])...)
+			}
+		}
+		return append([]byte{typ}, []byte(strings.Replace(body, ":", "", 1))...)
+	case 5: // invalid UTF-8 / NUL inside
+		i := 0
+		if len(body) > 0 {
+			i = (h / 8) % len(body)
+		}
+		return append([]byte{typ}, []byte(body[:i]+"\xff\x00\xfe"+body[i:])...)
+	case 6: // brackets swapped between the EEBUS and the plain spelling, unbalanced
+		r := strings.NewReplacer("[{", "{", "}]", "}")
+		if (h/8)%2 == 0 {
+			r = strings.NewReplacer("[{", "[[", "}]", "}}")
+		}
+		return append([]byte{typ}, []byte(r.Replace(body))...)
+	default: // pseudo random bytes
+		n := 1 + (h/8)%40
+		out := make([]byte, n)
+		x := uint32(h)
+		for i := range out {
+			x = x*1664525 + 1013904223
+			out[i] = byte(x >> 24)
+		}
+		return out
+	}
+}
+
 // ---------------------------------------------------------------- test input / observation output
 
 type act struct {
@@ -621,6 +695,12 @@ func runTest(t *test, seed int) (obsTrace, *divergence) {
 				f = func() { e.c.Run() }
 			case "Inject":
 				msg := concrete(a.M, a.ID, pick)
+				f = func() { e.c.HandleIncomingWebsocketMessage(msg) }
+			case "Mutate":
+				// C08: a structured mutation of a valid message of class a.M (mutation number a.ID)
+				k, _ := strconv.Atoi(a.ID)
+				msg := mutate(concrete(a.M, "d1", pick), k, seed)
+				obsAct = act{A: "Inject", E: a.E, M: "mutant", ID: ""}
 				f = func() { e.c.HandleIncomingWebsocketMessage(msg) }
 			case "Deliver":
 				e.qmu.Lock()
